@@ -141,6 +141,18 @@ type Result struct {
 	WallS         float64        `json:"wall_s"`
 }
 
+// Differ tells whether an implementation answer and a model answer disagree (answers that start with "~"
+// are not comparable, a suffix after " ~" is an annotation for the oracle).
+func Differ(impl, model string) bool {
+	if strings.HasPrefix(impl, "~") {
+		return false
+	}
+	if j := strings.Index(impl, " ~"); j >= 0 {
+		impl = impl[:j]
+	}
+	return impl != model
+}
+
 func firstDiff(a, b []string) int {
 	for i := range a {
 		if strings.HasPrefix(a[i], "~") {
